@@ -202,7 +202,7 @@ PROPS = {
                    "are compared at table level only; the unique-table/hash mechanism is tied by the audit "
                    "(AuditP.audited_store_canonical) and by correspondence."),
     "C03": dict(
-        gens=[("build", gen.gen_C03, 1.0)], quick=60, thorough=600,
+        gens=[("build", gen.gen_C03, 1.0), ("relation-group-mix", gen.gen_C03_relmix, 0.4)], quick=60, thorough=600,
         level_text="Proved: the recursive minterm builder evaluates to the max/min-of-matching-minterms "
                    "specification at every assignment, for every collection, rule and domain, and returns a "
                    "reduced diagram. Tie: tables and canonical dumps of the library's builders vs the model.",
@@ -222,7 +222,7 @@ PROPS = {
     "C05": dict(
         gens=[("arith", gen.gen_C05, 0.8), ("reuse-arith", lambda r: gen.gen_reuse(r, "arith"), 0.4),
               ("evplus", gen.gen_C05_ev, 0.4), ("neutral-mixed-rules", gen.gen_C05_neutral, 0.4),
-              ("evstar", gen.gen_evstar, 0.3)],
+              ("evstar", gen.gen_evstar, 0.3), ("diagonal-rows-eager", gen.gen_C05_diag, 0.3)],
         quick=60, thorough=600,
         level_text="Proved: element-wise binary/unary operations are pointwise for an arbitrary scalar function "
                    "(instantiated with the catalogue in Model/Scalar.v). Tie: tables+dumps for "
@@ -316,7 +316,7 @@ PROPS["C07"] = dict(
                "memoised recursion in Model/Memo.v when present; key adequacy per operation is by correspondence.")
 
 PROPS["C08"] = dict(
-    gens=[("reach", gen.gen_C08, 1.0), ("dist-nested", gen.gen_C08_dist, 1.4)], quick=50, thorough=500,
+    gens=[("reach", gen.gen_C08, 1.0), ("dist-nested", gen.gen_C08_dist, 1.4), ("recycled-relations", gen.gen_C08_recycle, 0.5)], quick=50, thorough=500,
     level_text="Proved: both breadth-first iterations and the level-wise saturation (nested fixed point) return "
                "exactly the reachable states and terminate; any sequence of single-event firings that ends closed "
                "under every event returns the same set; the distance iterations (forward/backward) return "
@@ -390,7 +390,7 @@ PROPS["C13"] = dict(
                "heuristics are not mirrored: the model recomputes the canonical diagram; EV+ not covered yet.")
 
 PROPS["C14"] = dict(
-    gens=[("xfile", gen.gen_C14, 1.0), ("evplus-xfile", gen.gen_C14_ev, 0.3)], quick=50, thorough=500,
+    gens=[("xfile", gen.gen_C14, 1.0), ("evplus-xfile", gen.gen_C14_ev, 0.3), ("truncated-full-vs-sparse", gen.gen_C14_trunc, 0.4)], quick=50, thorough=500,
     level_text="Proved: writing a list of diagrams as numbered records (bottom-up, shared sub-diagrams written "
                "once, references only to earlier records) and reading the records back returns exactly the "
                "diagrams written, in order. Tie: mdd_writer/mdd_reader round trips into the same forest, a twin "
